@@ -366,12 +366,28 @@ func newConnWorld(proto string) *connWorld {
 // are gone with the services that made them.
 func (w *connWorld) restart() {
 	for _, ag := range []*connAgent{w.a, w.b} {
+		ag.stopServices()
 		_ = ag.fw.Close() //nolint:errcheck
 		w.build(ag)
 	}
 
 	for _, e := range w.evs {
 		e.gone = true
+	}
+}
+
+// stopServices ends the listener goroutines of the framework instance's protocol services (aries.Close leaves them
+// running and the services offer no way to stop them: verif hooks VerifStop), once the service in use is idle.
+func (a *connAgent) stopServices() {
+	a.svc.VerifBarrier()
+
+	for _, svc := range a.ctx.AllServices() {
+		switch x := svc.(type) {
+		case interface{ VerifStop() }:
+			x.VerifStop()
+		case interface{ VerifStop() bool }:
+			x.VerifStop()
+		}
 	}
 }
 
@@ -403,6 +419,7 @@ func (a *connAgent) disarm() bool {
 
 func (w *connWorld) close() {
 	for _, ag := range []*connAgent{w.a, w.b} {
+		ag.stopServices()
 		_ = ag.fw.Close() //nolint:errcheck
 
 		// the case is over: drop the stores (mem frees a store's data on Close; goroutines the framework leaves behind
